@@ -868,7 +868,7 @@ func mapChain(w *World, f *ssa.Function, v ssa.Value, depth int) (ssa.Value, Sta
 				// index without being it: not followed
 				return v, Undecided, fmt.Sprintf("the pre-sized result is not filled by exactly one indexed store per iteration at the loop index (stores: %d)", stores), 0
 			}
-			if reachableFrom(loop.Body, map[*ssa.BasicBlock]bool{stBlk: true, loop.Done: true})[loop.Header] {
+			if simulate(loop.Body, map[*ssa.BasicBlock]bool{stBlk: true, loop.Done: true}, noOracle)[loop.Header] {
 				return v, Violated, "some iteration returns to the loop header without storing its output (an input element is skipped)", 0
 			}
 			src, st, msg, k := mapChain(w, f, loop.X, depth+1)
@@ -944,7 +944,7 @@ func mapChain(w *World, f *ssa.Function, v ssa.Value, depth int) (ssa.Value, Sta
 			}
 		}
 	}
-	if reachableFrom(loop.Body, stop)[loop.Header] {
+	if simulate(loop.Body, stop, noOracle)[loop.Header] {
 		return v, Violated, "some iteration returns to the loop header without appending (an input element is skipped)", 0
 	}
 	// alternative append sites (one per branch) are fine; two on one path are not
@@ -1257,6 +1257,12 @@ func oracleFor(pairs []pairRel) func(cond ssa.Value) (bool, bool) {
 // the outcome.  Blocks in stop are not entered.  Returns the reachable blocks
 // and the set of CFG edges taken.
 func simulate(start *ssa.BasicBlock, stop map[*ssa.BasicBlock]bool, oracle func(ssa.Value) (bool, bool)) map[*ssa.BasicBlock]bool {
+	return simulateFrom(start, nil, stop, oracle)
+}
+
+// simulateFrom: as simulate, with start entered along the edge from->start (the
+// phis of start take the values of that edge).
+func simulateFrom(start, from0 *ssa.BasicBlock, stop map[*ssa.BasicBlock]bool, oracle func(ssa.Value) (bool, bool)) map[*ssa.BasicBlock]bool {
 	// Boolean phis (the value form of && and ||, flags such as isTarget := a && b) are
 	// tracked along the path: entering a block by an edge fixes the value of its bool
 	// phis when the incoming value is a constant, a tracked phi, or decided by the oracle.
@@ -1295,6 +1301,22 @@ func simulate(start *ssa.BasicBlock, stop map[*ssa.BasicBlock]bool, oracle func(
 				val, ok := evalB(x.X, env)
 				return !val, ok
 			}
+		case *ssa.BinOp:
+			// e != nil / e == nil for an error (or pointer) phi whose nil-ness is tracked along
+			// the path (env value true = non-nil)
+			if x.Op == token.NEQ || x.Op == token.EQL {
+				var other ssa.Value
+				if isNilConst(x.Y) {
+					other = x.X
+				} else if isNilConst(x.X) {
+					other = x.Y
+				}
+				if other != nil {
+					if nn, ok := nonNilUnder(other, env); ok {
+						return nn == (x.Op == token.NEQ), true
+					}
+				}
+			}
 		}
 		return oracle(v)
 	}
@@ -1313,6 +1335,26 @@ func simulate(start *ssa.BasicBlock, stop map[*ssa.BasicBlock]bool, oracle func(
 					break
 				}
 				if bt, isB := ph.Type().Underlying().(*types.Basic); !isB || bt.Kind() != types.Bool {
+					if !nilable(ph.Type()) {
+						continue
+					}
+					for k, pred := range b.Preds {
+						if pred != from || k >= len(ph.Edges) {
+							continue
+						}
+						if next == nil {
+							next = map[*ssa.Phi]bool{}
+							for p, v := range env {
+								next[p] = v
+							}
+						}
+						if nn, known := nonNilUnder(ph.Edges[k], env); known {
+							next[ph] = nn
+						} else {
+							delete(next, ph)
+						}
+						break
+					}
 					continue
 				}
 				for k, pred := range b.Preds {
@@ -1358,8 +1400,97 @@ func simulate(start *ssa.BasicBlock, stop map[*ssa.BasicBlock]bool, oracle func(
 			walk(s, b, env)
 		}
 	}
-	walk(start, nil, map[*ssa.Phi]bool{})
+	walk(start, from0, map[*ssa.Phi]bool{})
 	return seen
+}
+
+func noOracle(ssa.Value) (bool, bool) { return false, false }
+
+// pinnedOnBackEdge: value e, carried to the loop header along the edge
+// latch->header, is known to be nil (or a false flag) there because a test of e
+// itself sends every other outcome elsewhere.
+func pinnedOnBackEdge(f *ssa.Function, e ssa.Value, latch, header *ssa.BasicBlock) bool {
+	if isNilConst(e) || isConst(e) {
+		return true
+	}
+	if e.Referrers() == nil {
+		return false
+	}
+	holds := func(b, side *ssa.BasicBlock) bool {
+		if b == latch && side == header {
+			return true
+		}
+		return side != header && edgeDominates(f, b, side, latch)
+	}
+	for _, b := range f.Blocks {
+		t, fl, ifi := ifSuccs(b)
+		if ifi == nil {
+			continue
+		}
+		c := ifi.Cond
+		neg := false
+		if u, ok := c.(*ssa.UnOp); ok && u.Op == token.NOT {
+			c, neg = u.X, true
+		}
+		if c == e {
+			// a flag: the way back needs it false
+			side := fl
+			if neg {
+				side = t
+			}
+			if holds(b, side) {
+				return true
+			}
+			continue
+		}
+		bo, ok := c.(*ssa.BinOp)
+		if !ok || (bo.Op != token.NEQ && bo.Op != token.EQL) {
+			continue
+		}
+		if !((bo.X == e && isNilConst(bo.Y)) || (bo.Y == e && isNilConst(bo.X))) {
+			continue
+		}
+		side := fl // e != nil: the nil side is the false edge
+		if (bo.Op == token.EQL) != neg {
+			side = t
+		}
+		if holds(b, side) {
+			return true
+		}
+	}
+	return false
+}
+
+func nilable(t types.Type) bool {
+	switch t.Underlying().(type) {
+	case *types.Interface, *types.Pointer:
+		return true
+	}
+	return false
+}
+
+// nonNilUnder: is v certainly non-nil (true) / certainly nil (false) given the
+// phis tracked along the path?
+func nonNilUnder(v ssa.Value, env map[*ssa.Phi]bool) (bool, bool) {
+	if isNilConst(v) {
+		return false, true
+	}
+	if ph, ok := v.(*ssa.Phi); ok {
+		val, ok := env[ph]
+		return val, ok
+	}
+	if mi, ok := v.(*ssa.MakeInterface); ok {
+		if _, isPtr := mi.X.Type().Underlying().(*types.Pointer); !isPtr {
+			return true, true
+		}
+	}
+	if isErrorCtor(v) {
+		return true, true
+	}
+	if rv := resolve(v); rv != v {
+		return nonNilUnder(rv, env)
+	}
+	return false, false
 }
 
 // phiValueUnder: which incoming value does phi take when the CFG is explored
@@ -1659,6 +1790,21 @@ func ruleElementwise(w *World, r *Report, fn string, pidx int) {
 			}
 		}
 		if !readInLoop {
+			continue
+		}
+		// a value that a test pins to one constant on every way back to the header (an error
+		// that is nil whenever the loop goes on, a stop flag that is false) is not state
+		pinned := true
+		for i, e := range p.Edges {
+			if blocks[loop.Header.Preds[i]] {
+				if !pinnedOnBackEdge(f, e, loop.Header.Preds[i], loop.Header) {
+					pinned = false
+				}
+			} else if !isNilConst(e) && !isConst(e) {
+				pinned = false
+			}
+		}
+		if pinned {
 			continue
 		}
 		bad = "loop-carried value " + p.Name() + " (" + p.Comment + ", " + p.Type().String() + ") is remembered from one element to the next"
@@ -2508,7 +2654,12 @@ func seenLeavesLoop(w *World, f *ssa.Function) string {
 			continue
 		}
 		inner, innerHdr := il.Blocks, il.Header
-		for b := range reachableFrom(hit, map[*ssa.BasicBlock]bool{innerHdr: true}) {
+		stop := rotatedLatches(il)
+		if stop[hit] {
+			continue
+		}
+		stop[innerHdr] = true
+		for b := range reachableFrom(hit, stop) {
 			if !inner[b] && b != innerHdr {
 				if _, isRet := b.Instrs[len(b.Instrs)-1].(*ssa.Return); isRet && len(b.Preds) > 0 {
 					// leaving through a return is an answer, not a skipped tail
